@@ -24,7 +24,7 @@ def mkT (l : Lbl) (outs : List OutDef) (checks : List (Path × Option Val)) (noC
 
 /-- the output hash `execTarget` computes -/
 def ohFor (cfg : Cfg) (t : Target) (k : κ) (ovs : Outs) : OH κ :=
-  if t.noCache || !cfg.enableCache then .nocache ovs else if t.outs.isEmpty then .self k else .outs ovs
+  if t.outs.isEmpty then .self k else if t.noCache || !cfg.enableCache then .nocache ovs else .outs ovs
 
 /-- the result `execTarget` stores -/
 def resFor (cfg : Cfg) (t : Target) (k : κ) (ovs : Outs) : Result κ :=
@@ -255,7 +255,8 @@ inductive Outcome (P : Params κ) (cfg : Cfg) (defs : Defs) (t : Target) (s s' :
 
 theorem buildTarget_all (P : Params κ) (cfg : Cfg) (defs : Defs) (fuel : Nat) (t : Target) (s : BState κ)
     (hm : cfg.minimal = false) : Outcome P cfg defs t s (buildTarget P cfg defs fuel t s) := by
-  unfold buildTarget
+  rw [buildTarget_all_eq P cfg defs fuel t s hm]
+  unfold buildTargetNoPre
   by_cases hd : depsOk s.st t.deps = false
   · simp only [hd, ↓reduceIte]; exact .depFailed hd rfl
   · have hd' : depsOk s.st t.deps = true := by simpa using hd
